@@ -354,6 +354,11 @@ impl LocalPeerService {
             for room in acquere.iter() {
                 rooms.push(*room);
             }
+            //locks granted but not yet processed must be released too
+            lock_receiver.close();
+            while let Ok(room) = lock_receiver.try_recv() {
+                rooms.push(room);
+            }
             Self::cleanup(&lock_service, rooms).await;
             let key = remote_verifying_key.lock().await;
             peer_service
